@@ -9,7 +9,8 @@
    CPubKey::Decompress; `ec_premise fv dec` is the secp256k1 fact the uncompressed-key case needs. *)
 From Coq Require Import NArith.
 From BV Require Import lib.Ints gen.Params_gen model.SerBase model.Compress model.CompressEC
-  proofs.SerBaseLemmas proofs.CompressLemmas proofs.CompressScriptLemmas.
+  proofs.SerBaseLemmas proofs.CompressLemmas proofs.CompressScriptLemmas proofs.CompressECLemmas.
+From Coq Require Import Znumtheory.
 Local Open Scope Z_scope.
 
 (* ---- amounts ---- *)
@@ -85,7 +86,7 @@ Print Assumptions C18_varint_rejects_overflow.
 (* Every script of at most MAX_SCRIPT_SIZE bytes (every spendable script) is read back unchanged,
    with the stream positioned exactly after it; the special templates included. *)
 Theorem C18_script_roundtrip : forall fv dec, ec_premise fv dec ->
-  forall s prev rest, Z.of_nat (length s) <= MAX_SCRIPT_SIZE ->
+  forall s prev rest, bytes_ok s -> Z.of_nat (length s) <= MAX_SCRIPT_SIZE ->
   exists enc, ser_script fv s = Some enc /\ unser_script dec prev (enc ++ rest) = Ok s rest.
 Proof. exact script_roundtrip. Qed.
 Print Assumptions C18_script_roundtrip.
@@ -93,7 +94,7 @@ Print Assumptions C18_script_roundtrip.
 (* the compressor's output is a tag < 6, the payload has the special size of that tag, and
    DecompressScript inverts it (the six tags never collide with the raw form size+6 >= 6) *)
 Theorem C18_special_scripts_decode_to_original : forall fv dec, ec_premise fv dec ->
-  forall s c, compress_script fv s = Some c ->
+  forall s c, bytes_ok s -> compress_script fv s = Some c ->
   exists tag payload, c = tag :: payload /\ (tag < 6)%N /\
     length payload = special_script_size (Z.of_N tag) /\
     decompress_script dec (Z.of_N tag) payload = Some s.
@@ -114,7 +115,7 @@ Print Assumptions C18_oversize_script_replaced.
    range (contains [0, MAX_MONEY]), any script up to MAX_SCRIPT_SIZE. *)
 Theorem C18_coin_roundtrip : forall fv dec, ec_premise fv dec ->
   forall c prev rest,
-  0 <= c_height c < 2 ^ 31 -> 0 <= c_value c <= 2049638230412172402 ->
+  0 <= c_height c < 2 ^ 31 -> 0 <= c_value c <= 2049638230412172402 -> bytes_ok (c_script c) ->
   Z.of_nat (length (c_script c)) <= MAX_SCRIPT_SIZE ->
   exists enc, ser_coin fv c = Some enc /\ unser_coin dec prev (enc ++ rest) = Ok c rest.
 Proof. exact coin_roundtrip. Qed.
@@ -123,11 +124,32 @@ Print Assumptions C18_coin_roundtrip.
 (* undo file record (TxInUndoFormatter, with the dummy version byte when height > 0) *)
 Theorem C18_undo_roundtrip : forall fv dec, ec_premise fv dec ->
   forall c prev rest,
-  0 <= c_height c < 2 ^ 31 -> 0 <= c_value c <= 2049638230412172402 ->
+  0 <= c_height c < 2 ^ 31 -> 0 <= c_value c <= 2049638230412172402 -> bytes_ok (c_script c) ->
   Z.of_nat (length (c_script c)) <= MAX_SCRIPT_SIZE ->
   exists enc, ser_undo fv c = Some enc /\ unser_undo dec prev (enc ++ rest) = Ok c rest.
 Proof. exact undo_roundtrip. Qed.
 Print Assumptions C18_undo_roundtrip.
+
+(* ---- the secp256k1 premise, for the executable instance (the one compared with libsecp256k1) ----
+   `ec_premise` holds for model/CompressEC.v given two classical facts about the field prime
+   p = 2^256 - 2^32 - 977 that Coq cannot check by computation here: p is prime, and Fermat's little
+   theorem for p.  (sqrt by exponent (p+1)/4, the two roots y and p-y have different parity, the
+   special-form reduction fe_red equals `mod p`, big-endian 32-byte (de)serialisation.) *)
+Theorem C18_secp_instance_satisfies_premise :
+  prime secp_p -> (forall a, 0 <= a < secp_p -> a ^ secp_p mod secp_p = a) ->
+  ec_premise secp_fully_valid secp_decompress.
+Proof. exact secp_instance_premise. Qed.
+Print Assumptions C18_secp_instance_satisfies_premise.
+
+(* hence, for the extracted model itself: every coin round trips *)
+Theorem C18_coin_roundtrip_secp :
+  prime secp_p -> (forall a, 0 <= a < secp_p -> a ^ secp_p mod secp_p = a) ->
+  forall c prev rest,
+  0 <= c_height c < 2 ^ 31 -> 0 <= c_value c <= 2049638230412172402 -> bytes_ok (c_script c) ->
+  Z.of_nat (length (c_script c)) <= MAX_SCRIPT_SIZE ->
+  exists enc, ser_coin secp_fully_valid c = Some enc /\ unser_coin secp_decompress prev (enc ++ rest) = Ok c rest.
+Proof. exact coin_roundtrip_secp. Qed.
+Print Assumptions C18_coin_roundtrip_secp.
 
 (* the executable predicate the violation search evaluates on the implementation's output is sound *)
 Theorem C18_holds_predicate_sound : forall dec undo c bytes back,
